@@ -26,6 +26,7 @@ import (
 	"io"
 	"net/http"
 	"net/http/httptest"
+	"os"
 	"strings"
 	"sync"
 	"time"
@@ -290,12 +291,26 @@ func (r *run) runH(env *hEnv, h *hScenario, emit bool) (failed string) {
 	// the dhstore requests, in order
 	var paths [][]byte
 	var dhReqs []reqRec
+	repeats := 0
 	for _, q := range reqs {
 		if strings.HasPrefix(q.Path, "/providers") {
 			continue
 		}
+		// net/http transparently re-sends an idempotent GET when a REUSED keep-alive
+		// connection dies before any response byte (our hang-up / short-body answers do
+		// that): the server then sees the same request twice in a row.  A transport-level
+		// retry asks nothing new, so immediate repeats of the same request are one request;
+		// anything that is not an exact repeat is judged as before.
+		if n := len(dhReqs); n > 0 && os.Getenv("VERIF_C12_RAW_LOG") == "" && dhReqs[n-1].Method == q.Method && dhReqs[n-1].Path == q.Path &&
+			dhReqs[n-1].Query == q.Query && bytes.Equal(dhReqs[n-1].Body, q.Body) {
+			repeats++
+			continue
+		}
 		dhReqs = append(dhReqs, q)
 		paths = append(paths, []byte(q.Path))
+	}
+	if emit && repeats > 0 {
+		r.c.CountN("hfind-transport-retries-collapsed", repeats)
 	}
 	if emit {
 		r.c.Eval()
